@@ -49,13 +49,16 @@ EXPR_FAULTS = {
     'undefined-variable': ['nope', '%no such%', 'nope_1'],
     'undefined-function': ['nofn(1)', 'nofn()', 'x.nofn()', 'x | nofn', 'x | nofn(2)', 'l.nofn(1, 2)', 'nofn(nope2)'],
     'missing-key-or-index': ['d["missing"]', 'd[0]', 'l[99]', 'l[-99]', 's[99]', 'e[0]', 'l[3]', 'd[None]', 'd["k"]["z"]',
-                             'l[0.5 + 99]', '{"a": 1}["b"]', '[1, 2][2]'],
+                             'l[0.5 + 99]', '{"a": 1}["b"]', '[1, 2][2]',
+                             # host containers that are mappings / sequences without being dict / list
+                             'cm["missing"]', 'ud["zz"]', 'mp["zz"]', 'ud["k"]["zz"]', 'od["zz"]', 'tup[5]', 'rng[7]', 'by[9]', 'cm[0]', 'ud[1.5]', 'dq[4]'],
     'pop-empty': ['pop(e)', 'e.pop()', 'pop([])', 'e | pop', '[] | pop'],
     'size-cap': ['push(big, 1)', 'big.insert(0, 1)', 'insert(big, 5, 1)', 'big | push(1)', 'push(big, big)'],
 }
 STMT_FAULTS = {
     'compound-undefined-name': ['u += 1', 'u -= 1', 'u *= 2', 'u /= 2', 'u += "a"', '%u v% += 1', 'u += nope'],
-    'compound-missing-key': ['d["new"] += 1', 'l[99] -= 1', 'e[0] *= 2', 'd[5] /= 1', 'd["k2"] += "s"', 'l[-50] += 1'],
+    'compound-missing-key': ['d["new"] += 1', 'l[99] -= 1', 'e[0] *= 2', 'd[5] /= 1', 'd["k2"] += "s"', 'l[-50] += 1', 'ud["new"] += 1', 'cm["new"] -= 1', 'tup[5] += 1', 'mp["zz"] += 1',
+                             'od["zz"] *= 2'],
     'size-cap': ['big[0] = 1', 'bigd["zz"] = 1', 'big[0] += 1', 'bigd["0"] += 1', 'bigd[77777] = 2'],
     'undefined-variable': ['y = nope', 'l[nope] = 1', 'del l[nope]', 'nopec[0] = 1', 'nopec[0] += 1', 'del nopec[0]', 'x += nope',
                            'l[0] = nope', 'l[0] += nope', 'd[nope] -= 1'],
@@ -69,7 +72,11 @@ EXPR_CTX = ['@', '1 + @', '@ + 1', 'x * (2 - @)', '[1, @, 3]', '{"a": @}', '{@: 
             'map([1], v => @)', 'map([1, 2], v => v + @)', 'filter(l, v => @)', 'reduce(l, (a, b) => @)', 'sorted(l, v => @)',
             'map(d, (k, v) => @)', 'sorted(d, (k, v) => @)', 'hm(v => @, 2)', 'hm(v => hm(w => @, 1), 1)', 'map([1], v => map([2], w => @))',
             'f(1,\n @\n)', '[\n@]', '1 + @ # trailing comment']
-STMT_CTX = ['@', 'y = 1\n@', '@\ny = 1', 'y = 1;@;z = 2', '\n\n@\n', 'y = 1\r\n@', 'g = v => v\n@', '# c\n@']
+STMT_CTX = ['@', 'y = 1\n@', '@\ny = 1', 'y = 1;@;z = 2', '\n\n@\n', 'y = 1\r\n@', 'g = v => v\n@', '# c\n@',
+            # error path before the fault: a lambda whose parameters carry exactly the names the fault leaves undefined fails, a host callback swallows
+            # that failure, and evaluation goes on - the parameters are gone with the failed call
+            'attempt((nope, nofn, u, nopec, nope_1, nope2, %no such%, %u v%) => [][5], 1, (v => v), 3, [1], 5, 6, 7, 8)\n@',
+            'attempt(u => attempt(nope => nofn_inner(1), 2), 1);@']
 LINE_CTX = ['y = @', 'x += @', 'l[0] = @', 'l[@] = 1', 'd["k"] += @', 'del l[@]', 'y = 1\nz = @', 'g = v => @\ng(1)', 'g = v => @\nmap(l, g)',
             'g = v => @\nh = w => g(w)\nh(2)', 'x -= @', 'd[@] = 1']
 
@@ -89,7 +96,16 @@ def names(ctx, variant=0):
         base = names(ctx)
         ctx.count('evals_on_names_mappings_with___missing__')
         return collections.defaultdict(int, base) if variant == 4 else MissingDict(base) if variant == 5 else collections.defaultdict(list, base)
-    return {'l': [1, 2, 3], 'ls': ['b', 'a'], 'd': {'k': {'q': 1}}, 's': 'abc', 'x': 5, 'e': [], 'f': lambda *a: a[-1] if a else None, 'hm': hm,
+    def attempt(fn, *a):
+        try:
+            return fn(*a)
+        except Exception:
+            return None
+    import collections
+    import types
+    return {'cm': collections.ChainMap({'k': 1}), 'ud': collections.UserDict({'k': {'q': 1}}), 'mp': types.MappingProxyType({'k': 1}), 'od': collections.OrderedDict(k=1), 'tup': (1, 2),
+            'rng': range(3), 'by': b'ab', 'dq': collections.deque([1, 2]),
+            'attempt': attempt, 'l': [1, 2, 3], 'ls': ['b', 'a'], 'd': {'k': {'q': 1}}, 's': 'abc', 'x': 5, 'e': [], 'f': lambda *a: a[-1] if a else None, 'hm': hm,
             'big': list(ctx.big), 'bigd': dict(ctx.bigd)}
 
 
